@@ -380,12 +380,15 @@ func TestDriverGenesis(t *testing.T) {
 			"non-trivial = the state holds at least one contract with storage, or a precompile / allowance / proof / code-less storage, or params differing from the defaults, i.e. something that can be lost; distinct by configuration and operation sequence")
 	cases := NewCases(dir, "From Evm Require Import Genesis CorrGenesis.", "genesis_mismatches")
 	d := &gdriver{t: t, side: side, cases: cases, seed: seed}
+	// whatever happens (a require failing mid-way included), what was observed so far is written out
+	defer func() {
+		cases.Write(t, 10)
+		side.Write(t, dir)
+	}()
 	d.reference()
 	for i := 0; i < n; i++ {
 		d.roundCase(i, rng.Fork(uint64(i)))
 	}
-	cases.Write(t, 10)
-	side.Write(t, dir)
 }
 
 func govAuthority() string { return authtypes.NewModuleAddress(govtypes.ModuleName).String() }
@@ -703,7 +706,11 @@ func (d *gdriver) roundCase(ci int, r *Rng) {
 	}
 	hA := map[string]int64{"suite": height, "1": 1, "high": 1000000007}[cfg.aHeight]
 	appA, failure := newAppFrom(c0, doc, cp, hA, c0.Time)
-	require.Nil(t, failure, "stage A import failed")
+	if failure != nil {
+		// chain A itself starts from a valid genesis document (flags, params within what Validate accepts)
+		d.side.Hit(sigImportFails, fmt.Sprintf("InitChain of chain A failed on a valid genesis document: %v", failure), where0(ci, d.seed, cfg, nil))
+		return
+	}
 	a := chainOn(t, c0, appA)
 	h := &hist{t: t, c: a, r: r, side: d.side, pending: map[common.Address]uint64{}, erc20Msg: map[common.Address]bool{}}
 	if cfg.erc20Flag {
